@@ -171,6 +171,51 @@ Proof.
   destruct (ab =? cd) eqn:?, (ab - cd =? 0) eqn:?; lia.
 Qed.
 
+
+(* ------------------------------------------------------------------ the closed range
+   A difference (or a factor) equal to INT64_MIN does not overflow, but std::abs(INT64_MIN) in the portable
+   branch is formally undefined in C++.  On two's complement hardware it yields INT64_MIN, whose conversion to
+   uint64_t is 2^63 = |INT64_MIN|; this is also what the translated definition computes
+   (wrap64 (Z.abs (-2^63)) = 2^63), so in the model the portable branch is exact on the closed range too. *)
+Lemma abs_u64_closed a : i64 a -> wrap64 (Z.abs a) = Z.abs a /\ u64 (Z.abs a).
+Proof. unfold i64, u64. intros H. split; [apply wrap64_small|]; lia. Qed.
+
+Theorem products_equal_portable_closed a b c d :
+  i64 a -> i64 b -> i64 c -> i64 d -> ProductsAreEqual_portable a b c d = (a * b =? c * d).
+Proof.
+  intros Ha Hb Hc Hd. unfold ProductsAreEqual_portable. cbv zeta.
+  destruct (abs_u64_closed a Ha) as [-> Ua], (abs_u64_closed b Hb) as [-> Ub],
+           (abs_u64_closed c Hc) as [-> Uc], (abs_u64_closed d Hd) as [-> Ud].
+  rewrite u128_eq_val by (apply multiply_lo || apply multiply_hi; assumption).
+  rewrite !multiply_val by assumption.
+  rewrite !trisign_sgn, <- !Z.sgn_mul, <- !Z.abs_mul.
+  destruct (Z.abs (a * b) =? Z.abs (c * d)) eqn:?, (Z.sgn (a * b) =? Z.sgn (c * d)) eqn:?,
+           (a * b =? c * d) eqn:?; cbn [andb]; lia.
+Qed.
+
+Theorem cross_sign_portable_closed p q r :
+  diffs i64 p q r -> CrossProductSign_portable p q r = Z.sgn (cross p q r).
+Proof.
+  intros (Ha & Hb & Hc & Hd). unfold CrossProductSign_portable, cross. cbv zeta beta.
+  set (a := px q - px p) in *. set (b := py r - py q) in *.
+  set (c := py q - py p) in *. set (d := px r - px q) in *.
+  destruct (abs_u64_closed a Ha) as [-> Ua], (abs_u64_closed b Hb) as [-> Ub],
+           (abs_u64_closed c Hc) as [-> Uc], (abs_u64_closed d Hd) as [-> Ud].
+  pose proof (multiply_val _ _ Ua Ub) as Vab. pose proof (multiply_val _ _ Uc Ud) as Vcd.
+  pose proof (multiply_lo _ _ Ua Ub) as Lab. pose proof (multiply_lo _ _ Uc Ud) as Lcd.
+  pose proof (multiply_hi _ _ Ua Ub) as Hab. pose proof (multiply_hi _ _ Uc Ud) as Hcd.
+  rewrite <- Z.abs_mul in Vab, Vcd. unfold u128_val, u64 in *.
+  rewrite !trisign_sgn, <- !Z.sgn_mul.
+  set (ab := a * b) in *. set (cd := c * d) in *.
+  set (m1 := Multiply (Z.abs a) (Z.abs b)) in *. set (m2 := Multiply (Z.abs c) (Z.abs d)) in *.
+  repeat match goal with
+         | |- context [if ?c then _ else _] => destruct c eqn:?
+         end; lia.
+Qed.
+
+Example diffs_closed_sat : diffs i64 (2 ^ 62, 0) (- 2 ^ 62, 2 ^ 62) (2 ^ 62 - 1, - 2 ^ 62).
+Proof. unfold diffs, i64, px, py; cbn [fst snd]. lia. Qed.
+
 (* the hypotheses are satisfiable, also at the extremes *)
 Example diffs_sat : diffs i64s (- 2 ^ 62, 2 ^ 62 - 1) (2 ^ 62 - 1, - 2 ^ 62) (0, 5).
 Proof. unfold diffs, i64s, px, py; cbn [fst snd]. lia. Qed.
